@@ -19,6 +19,36 @@ pub struct Case {
     pub tape_a: Vec<u16>,
     pub tape_b: Vec<u16>,
     pub flags: Vec<u16>,
+    /// selects the stem of the grammar file: `g` or the (possibly lower-cased) name of a rule of
+    /// A or B, so that the same string is used as a file stem and as a symbol name
+    #[serde(default)]
+    pub stem: u16,
+}
+
+thread_local! {
+    static STEM: std::cell::RefCell<String> = std::cell::RefCell::new("g".to_string());
+}
+
+fn stem() -> String {
+    STEM.with(|s| s.borrow().clone())
+}
+
+pub fn stem_of(case: &Case, a: &crate::spec::GrammarSpec, b: &crate::spec::GrammarSpec) -> String {
+    let mut opts: Vec<String> = vec!["g".to_string()];
+    for r in a.rules.iter().chain(b.rules.iter()) {
+        if !opts.contains(&r.name) {
+            opts.push(r.name.clone());
+        }
+        let l = r.name.to_lowercase();
+        if !opts.contains(&l) {
+            opts.push(l);
+        }
+    }
+    // half of the cases keep the plain stem
+    if case.stem % 2 == 0 {
+        return "g".to_string();
+    }
+    opts[pick(case.stem, opts.len())].clone()
 }
 
 /// The harness's own flag table (written from `rcomp --help` and the `Settings` docs):
@@ -152,16 +182,17 @@ fn rcomp_bin() -> PathBuf {
     PathBuf::from(std::env::var("VERIF_RCOMP").unwrap_or_else(|_| "/verif/target/rcomp/debug/rcomp".into()))
 }
 
-const OUT_FILES: [&str; 3] = ["g.rs", "g_actions.rs", "g.dot"];
+const OUT_FILES: [&str; 3] = ["<stem>.rs", "<stem>_actions.rs", "<stem>.dot"];
 
 fn read_outputs(dir: &Path) -> Vec<Option<Vec<u8>>> {
-    OUT_FILES.iter().map(|f| std::fs::read(dir.join(f)).ok()).collect()
+    let st = stem();
+    [format!("{st}.rs"), format!("{st}_actions.rs"), format!("{st}.dot")].iter().map(|f| std::fs::read(dir.join(f)).ok()).collect()
 }
 
 fn fresh(dir: &Path, text: &str) -> PathBuf {
     let _ = std::fs::remove_dir_all(dir);
     std::fs::create_dir_all(dir).expect("scratch");
-    let g = dir.join("g.rustemo");
+    let g = dir.join(format!("{}.rustemo", stem()));
     std::fs::write(&g, text).expect("write grammar");
     g
 }
@@ -237,8 +268,8 @@ impl Prop for C17 {
         12
     }
     fn strategy(&self, _tier: Tier) -> BoxedStrategy<Case> {
-        (gen::g_ast(), gen::g_ast(), proptest::collection::vec(any::<u16>(), 24))
-            .prop_map(|(tape_a, tape_b, flags)| Case { tape_a, tape_b, flags })
+        (gen::g_ast(), gen::g_ast(), proptest::collection::vec(any::<u16>(), 24), any::<u16>())
+            .prop_map(|(tape_a, tape_b, flags, stem)| Case { tape_a, tape_b, flags, stem })
             .boxed()
     }
     fn cases(&self, tier: Tier) -> u32 {
@@ -253,9 +284,10 @@ impl Prop for C17 {
     fn rule(&self) -> String {
         "case = two generated AST-shape-rich grammars A, B (enum / struct / ref / vec / optional / \
          recursive shapes, production kinds, names that collide after suffixing such as B, B1, B11) + \
-         a random subset of the rcomp command-line flags. (i) the same rcomp command line runs in 5 \
-         fresh processes (std's per-process hash keys differ) and must write byte-identical g.rs, \
-         g_actions.rs and g.dot; (ii) the library API in one process generating [A, B, A] and [B, A] \
+         a random subset of the rcomp command-line flags; the grammar file is g.rustemo or is named \
+         after a rule of A or B (as written or lower-cased). (i) the same rcomp command line runs in 5 \
+         fresh processes (std's per-process hash keys differ) and must write byte-identical <stem>.rs, \
+         <stem>_actions.rs and <stem>.dot; (ii) the library API in one process generating [A, B, A] and [B, A] \
          must write identical bytes for every A; (iii) rcomp <flags> and the API configured through \
          the harness's own flag->setter table must write byte-identical files and agree on \
          success. Flag combinations whose meaning depends on setter order are excluded by \
@@ -287,7 +319,12 @@ impl Prop for C17 {
         }
         let base = thread_dir("c17");
         let flag_names: Vec<String> = flags.iter().map(|f| f.name()).collect();
-        let ctx = |m: String| format!("flags: {}\ngrammar:\n{ta}\n{m}", flag_names.join(" "));
+        let stem_name = stem_of(case, &spec_a, &spec_b);
+        STEM.with(|s| *s.borrow_mut() = stem_name.clone());
+        if stem_name != "g" {
+            st.class("file-stem-is-a-symbol-name");
+        }
+        let ctx = |m: String| format!("flags: {}\ngrammar file: {stem_name}.rustemo\ngrammar:\n{ta}\n{m}", flag_names.join(" "));
         // (i) fresh processes
         let mut first: Option<(bool, Vec<Option<Vec<u8>>>)> = None;
         for k in 0..5 {
